@@ -10,7 +10,7 @@ open IsoMdl IsoMdl.ResponseFacts
 /-- (identifier, value) of one IssuerSignedItemBytes -/
 def itemOf : Cbor → Option (Bytes × Cbor)
   | .tag 24 (.bytes b) => match decodeValue b with
-    | some iv => match mget iv (ResponseFacts.tx "elementIdentifier"), mget iv (ResponseFacts.tx "elementValue") with
+    | some iv => match fget iv "elementIdentifier", fget iv "elementValue" with
       | some (.text id), some v => some (id, v)
       | _, _ => none
     | none => none
